@@ -313,4 +313,29 @@ theorem JI_drain {cfg : Cfg} {G : Block} (E : StaticOK cfg.st G) (hb : cfg.batch
     · unfold importDone at hd; rw [hst] at hd; simp only [hk] at hd; cases hd
     · exact hfin x.P x.V hks hkeys hv hst hI hAR (fun _ _ => rfl)
 
+/-- the window is still open in the skeleton, but the stored status says the rescan is over and nothing is queued:
+    round 3's invariant holds already -/
+theorem JI_done_JQ {cfg : Cfg} {G : Block} {x : SysQ} {k : Skel} {w : Wid} (hJ : JI cfg G x k w) (hq : x.queue = [])
+    (hd : importDone x.P w = true) : JQ cfg.st G x k := by
+  obtain ⟨hc, hks, hkeys, hw, hnW, hnA, ⟨X, hX, hIJ, hv, _, hq0⟩, hqk, hql, hN, hcur, hoth, htask⟩ := hJ
+  have hXe : X = k.chain := hq0 hq
+  subst hXe
+  rcases hIJ with ⟨ws, kk, hst, hk, _⟩ | ⟨hst, hI, hAR⟩
+  · unfold importDone at hd; rw [hst] at hd; simp only [hk] at hd; cases hd
+  · have hwr : readyB x.P.led w = true := by unfold readyB; rw [hst]; rfl
+    have hqw : x.world.queue = [] := hq
+    refine ⟨hc, hks, hkeys, ⟨k.chain, ⟨?_, hv, hN, hAR, ?_, (fun y hy => by rw [hqw] at hy; cases hy),
+      (fun _ => hc.symm), (fun h => absurd hqw h)⟩, k.chain, hcur, List.prefix_refl _⟩, hN, hcur, hnW, hnA, ?_⟩
+    · show Ledger.Inv ((lenv cfg.st k.ks).ctx x.chain) x.P.led k.chain
+      rw [hc]; exact hI
+    · have : (readyWallets x.P.led (walletsOf k.ks)).contains w = true := mem_readyWallets.2 ⟨hw, hwr⟩
+      show (readyWallets x.P.led (walletsOf k.ks)).isEmpty = false
+      cases hr : readyWallets x.P.led (walletsOf k.ks) with
+      | nil => rw [hr] at this; cases this
+      | cons _ _ => rfl
+    · intro w' hw'
+      by_cases hww : w' = w
+      · rw [hww]; exact hwr
+      · exact hoth w' hw' hww
+
 end MW.Lemmas.Deepen4
